@@ -92,6 +92,18 @@ Next == \/ Ask /\ Log("Ask")
 
 Spec == Init /\ [][Next]_vars
 
+\* n overlapping IsOpen() calls (goroutines racing on the half-open permission). IsOpen is the same
+\* operation for every caller and no time passes inside the burst, so in whatever order the calls take
+\* effect the outcome is that of n consecutive Asks: everything while closed, nothing while open and the
+\* timeout has not elapsed, and in the half-open window exactly one caller iff a single Ask would pass.
+RaceSizes == {2, 6}
+RaceAdmits(n) == IF ~open THEN n ELSE IF Admits THEN 1 ELSE 0
+Race(n) == /\ act' = "Race" /\ res' = "none"
+           /\ IF open /\ Admits THEN probing' = TRUE /\ sinceProbe' = 0 ELSE UNCHANGED <<probing, sinceProbe>>
+           /\ UNCHANGED <<failures, open, sinceFail, consec>>
+NextR == Next \/ \E n \in RaceSizes : Race(n) /\ Log(<<"Race", n>>)
+SpecR == Init /\ [][NextR]_vars
+
 -----------------------------------------------------------------------------
 (* Property C08, health breaker *)
 
